@@ -350,6 +350,14 @@ func runCheck(o checkOpts) *checkResult {
 			res.broken = append(res.broken, er)
 			continue
 		}
+		if strings.Contains(er, "not found in package") && strings.Contains(firstLine(er), "$") {
+			// a contract on an anonymous function that no longer exists
+			// (closure turned into a method or a named helper): its clauses
+			// are auxiliary to the enclosing function's contract, which is
+			// still checked; reported as a stale contract, not as a violation
+			warns = appendUniq(warns, "stale contract (closure no longer exists, clauses not checked): "+firstLine(er))
+			continue
+		}
 		_ = os.MkdirAll(filepath.Join(o.verif, "replay", o.prop), 0o755)
 		path := filepath.Join(o.verif, "replay", o.prop, fmt.Sprintf("contract-mismatch-%d.json", i+1))
 		data, _ := json.MarshalIndent(map[string]interface{}{"property": o.prop, "obligation": "contract-mismatch", "detail": er,
